@@ -176,9 +176,12 @@ func genC17(ref core.CaseRef, r *rand.Rand) *c17Case {
 			}
 			row[col] = t[j]
 		}
+		blank := r.Intn(9) == 0 // a row that carries no reading at all still counts as a row
 		for _, f := range []string{"v", "w"} {
-			if v, present := c17Value(r); present {
+			if v, present := c17Value(r); present && !blank {
 				row[f] = v
+			} else if blank && r.Intn(2) == 0 {
+				row[f] = nil
 			}
 		}
 		groups[tuple(row, c.Cols)] = true
@@ -245,6 +248,10 @@ func genC17(ref core.CaseRef, r *rand.Rand) *c17Case {
 		c.SQL += " GLOBAL WINDOW"
 	}
 	c.SQL += " TRIGGER WHEN " + c.Pred
+	if ref.Index%5 == 3 {
+		// a state TTL that never expires during the case: a group that fired still starts again from empty
+		c.SQL += " WITH (STATETTL='1h')"
+	}
 	return c
 }
 
@@ -313,6 +320,7 @@ func runC17(ctx *core.Ctx) {
 	})
 	c17NestedStream(ctx)
 	c17TTLStream(ctx)
+	c17BlankStream(ctx)
 }
 
 func execC17(ctx *core.Ctx, c *c17Case) {
